@@ -131,6 +131,7 @@ type FuncGen struct {
 	bytesOf map[string]string
 	localAllocs map[*ssa.Alloc]bool
 	abstractions [][2]string
+	visitedMode int
 	disabled map[int]bool // assumptions of failed side checks, dropped in the second pass
 	inline map[ssa.Value]bool
 	posts    map[string]*postParts
@@ -1039,6 +1040,43 @@ func (g *FuncGen) mergeLocals(b *ssa.BasicBlock, conds []string, locs []map[*ssa
 
 // loopEnv builds the environment in which a loop's invariant is evaluated.
 // phiVal maps each header phi to the term to use for it.
+// mapRangeKeySort: if the loop is a range over a map, the SMT sort of its keys.
+func (g *FuncGen) mapRangeKeySort(li *loopInfo) string {
+	for _, ins := range li.head.Instrs {
+		if nx, ok := ins.(*ssa.Next); ok && !nx.IsString {
+			if rng, ok := nx.Iter.(*ssa.Range); ok {
+				if mt, ok := rng.X.Type().Underlying().(*types.Map); ok {
+					return g.w.SortOf(mt.Key())
+				}
+			}
+		}
+	}
+	return ""
+}
+
+// visitedFor: the ghost visited set of a map-range loop in the three
+// situations an invariant is evaluated in (0 entry, 1 head, 2 back edge).
+func (g *FuncGen) visitedFor(li *loopInfo, mode int) string {
+	ks := g.mapRangeKeySort(li)
+	if ks == "" {
+		return ""
+	}
+	vis, ok := g.visited[li.head]
+	if !ok {
+		vis = g.freshConst("visited", "(Array "+ks+" Bool)")
+		g.visited[li.head] = vis
+	}
+	switch mode {
+	case 0:
+		return "((as const (Array " + ks + " Bool)) false)"
+	case 2:
+		if k, ok := g.nextKey[li.head]; ok {
+			return fmt.Sprintf("(store %s %s true)", vis, k)
+		}
+	}
+	return vis
+}
+
 func (g *FuncGen) loopEnv(li *loopInfo, heap *Heap, locals map[*ssa.Alloc]string, phiVal func(*ssa.Phi) string) *Env {
 	env := &Env{g: g, vars: map[string]Val{}, heap: heap, old: g.entryHeap, pkg: g.pkg, entryVars: g.paramTerms}
 	for k, v := range g.paramTerms {
@@ -1107,10 +1145,33 @@ func (g *FuncGen) loopEnv(li *loopInfo, heap *Heap, locals map[*ssa.Alloc]string
 			env.vars[phi.Comment] = Val{t, phi.Type()}
 		}
 	}
-	if vs, ok := g.visited[li.head]; ok {
+	if rl := g.rangeLen(li); rl != nil {
+		env.vars["$rangelen"] = Val{g.val(rl), tInt}
+	}
+	if vs := g.visitedFor(li, g.visitedMode); vs != "" {
 		env.vars["$visited"] = Val{vs, nil}
 	}
 	return env
+}
+
+// rangeLen: the SSA value the range index is compared with (`idx+1 < len`).
+func (g *FuncGen) rangeLen(li *loopInfo) ssa.Value {
+	for _, ins := range li.head.Instrs {
+		if ifi, ok := ins.(*ssa.If); ok {
+			if cmp, ok := ifi.Cond.(*ssa.BinOp); ok && cmp.Op == token.LSS {
+				if add, ok := cmp.X.(*ssa.BinOp); ok && add.Op == token.ADD {
+					if phi, ok := add.X.(*ssa.Phi); ok && phi.Comment == "rangeindex" {
+						// the bound must be defined outside the loop
+						if ins2, ok := cmp.Y.(ssa.Instruction); ok && li.body[ins2.Block()] {
+							return nil
+						}
+						return cmp.Y
+					}
+				}
+			}
+		}
+	}
+	return nil
 }
 
 func (g *FuncGen) loopInvariants(li *loopInfo) []Clause {
@@ -1121,8 +1182,12 @@ func (g *FuncGen) loopInvariants(li *loopInfo) []Clause {
 			break
 		}
 		if phi.Comment == "rangeindex" {
-			e, _ := ParseExpr("idx >= 0")
-			out = append(out, Clause{Label: "auto.range", Expr: e, Src: "idx >= 0"})
+			src := "idx >= 0"
+			if g.rangeLen(li) != nil {
+				src = "idx >= 0 && idx <= $rangelen"
+			}
+			e, _ := ParseExpr(src)
+			out = append(out, Clause{Label: "auto.range", Expr: e, Src: src})
 		}
 	}
 	if li.spec != nil {
@@ -1157,6 +1222,7 @@ func (g *FuncGen) enterLoop(b *ssa.BasicBlock) (*State, error) {
 	// inv.init on every entry edge
 	for k := range conds {
 		j := predIdx[k]
+		g.visitedMode = 0
 		env := g.loopEnv(li, heaps[k], locs[k], func(phi *ssa.Phi) string { return g.val(phi.Edges[j]) })
 		for _, cl := range invs {
 			t, err := g.evalBool(cl.Expr, env)
@@ -1204,6 +1270,7 @@ func (g *FuncGen) enterLoop(b *ssa.BasicBlock) (*State, error) {
 		}
 	}
 	li.headLocals = headLocals
+	g.visitedMode = 1
 	env := g.loopEnv(li, h, headLocals, func(phi *ssa.Phi) string { return g.val(phi) })
 	for _, cl := range invs {
 		t, err := g.evalBool(cl.Expr, env)
@@ -1226,6 +1293,7 @@ func (g *FuncGen) takeEdge(from, to *ssa.BasicBlock, cond string, heap *Heap, lo
 				j = k
 			}
 		}
+		g.visitedMode = 2
 		env := g.loopEnv(li, heap, locals, func(phi *ssa.Phi) string { return g.val(phi.Edges[j]) })
 		for _, cl := range g.loopInvariants(li) {
 			t, err := g.evalBool(cl.Expr, env)
@@ -1235,7 +1303,9 @@ func (g *FuncGen) takeEdge(from, to *ssa.BasicBlock, cond string, heap *Heap, lo
 			g.oblige(fmt.Sprintf("inv.preserve.L%d", li.ord), cl.Label, cond, t, cl.Src, to.Instrs[0].Pos())
 		}
 		if li.spec != nil && li.spec.Decreases != nil {
+			g.visitedMode = 1
 			envHead := g.loopEnv(li, li.headHp, li.headLocals, func(phi *ssa.Phi) string { return g.val(phi) })
+			g.visitedMode = 2
 			d0, err := g.eval(li.spec.Decreases, envHead)
 			if err != nil {
 				return err
